@@ -213,9 +213,44 @@ fn check_through_call(spec: SpecId, addr: u64, input: &Bytes, gas: u64, want_out
     v
 }
 
+/// second call after a first one on the same thread: None when the second result is the defined one
+fn pair_result(first_input: &str, second: &Vector, f: &str) -> Option<String> {
+    let (pid, _) = fork_id(f);
+    // an unrelated call first, so that whatever the implementation remembers does not depend on what ran
+    // on this thread before (replays must observe the same thing)
+    let mut neutral = hex::decode(&second.input).unwrap();
+    if let Some(b) = neutral.first_mut() {
+        *b ^= 0xff;
+    }
+    let _ = call_precompile(pid, second.addr, &Bytes::from(neutral), 30_000_000);
+    let _ = call_precompile(pid, second.addr, &Bytes::from(hex::decode(first_input).unwrap()), 30_000_000);
+    let r = call_precompile(pid, second.addr, &Bytes::from(hex::decode(&second.input).unwrap()), 30_000_000);
+    match (&r, second.expect.get("ok"), second.expect.get("err")) {
+        (Ok(Ok((g, out))), Some(okv), _) => {
+            let want = okv.get("out").and_then(|o| o.as_str()).map(|s| hex::decode(s).unwrap());
+            if Some(*g) != okv["gas"].as_u64() || want.as_deref().map(|w| w != out.as_ref()).unwrap_or(false) {
+                Some(format!("returned gas {g} output 0x{}", hex::encode(out)))
+            } else {
+                None
+            }
+        }
+        (Ok(Err(e)), Some(_), _) => Some(format!("failed with {e:?}")),
+        (Ok(Ok((g, out))), _, Some(_)) => Some(format!("succeeded (gas {g}, output 0x{})", hex::encode(out))),
+        (Err(p), _, _) => Some(p.clone()),
+        _ => None,
+    }
+}
 pub fn replay(case: &Value) -> Vec<Violation> {
     if case.get("c24").is_some() {
         return vec![];
+    }
+    if let Some(p) = case.get("pair") {
+        let v: Vector = serde_json::from_value(case["vector"].clone()).unwrap();
+        let fork = case["fork"].as_str().unwrap();
+        return match pair_result(p["first"].as_str().unwrap(), &v, fork) {
+            Some(m) => vec![Violation { key: format!("{:#04x}:result-depends-on-previous-call", v.addr), msg: m, case: case.clone() }],
+            None => vec![],
+        };
     }
     let v: Vector = serde_json::from_value(case["vector"].clone()).unwrap();
     let fork = case["fork"].as_str().unwrap();
@@ -253,9 +288,55 @@ pub fn run(ctx: &Ctx) -> i32 {
             a
         })
         .collect();
-    let acc = merge_all(accs);
+    let mut acc = merge_all(accs);
+    // back to back on one thread: for every ordered pair of vectors of one precompile whose inputs differ in
+    // exactly one 32-byte word, the second call must still give its own defined result
+    {
+        let mut by_addr: std::collections::BTreeMap<u64, Vec<&Vector>> = Default::default();
+        for v in &vectors {
+            by_addr.entry(v.addr).or_default().push(v);
+        }
+        let mut pairs: Vec<(&Vector, &Vector)> = vec![];
+        for vs in by_addr.values() {
+            for (i, a) in vs.iter().enumerate() {
+                for (j, b) in vs.iter().enumerate() {
+                    if i == j || a.input.len() != b.input.len() || a.input.len() > 1024 {
+                        continue;
+                    }
+                    let d = a.input.as_bytes().chunks(64).zip(b.input.as_bytes().chunks(64)).filter(|(p, q)| p != q).count();
+                    if d == 1 {
+                        pairs.push((*a, *b));
+                    }
+                }
+            }
+        }
+        let paccs: Vec<Acc> = pairs
+            .par_chunks(64)
+            .map(|ch| {
+                let mut a = Acc::new();
+                for (first, second) in ch {
+                    let Some(f) = second.forks.iter().rev().find(|f| first.forks.contains(f)) else { continue };
+                    a.evaluations += 1;
+                    a.states += 1;
+                    a.transitions += 2;
+                    a.bump("back_to_back_pairs", 1);
+                    let name = format!("{:#04x}", second.addr);
+                    let bad = pair_result(&first.input, second, f);
+                    if let Some(m) = bad {
+                        a.violation(Violation {
+                            key: format!("{name}:result-depends-on-previous-call"),
+                            msg: format!("precompile {name} on {f}: after a call with input 0x{}, the call with input 0x{} {m}; its own definition: {}", &first.input[..first.input.len().min(300)], &second.input[..second.input.len().min(300)], second.expect),
+                            case: json!({"pair": {"first": first.input, "addr": second.addr, "fork": f}, "vector": {"addr": second.addr, "forks": second.forks, "input": second.input, "expect": second.expect, "note": second.note}, "fork": f}),
+                        });
+                    }
+                }
+                a
+            })
+            .collect();
+        acc.merge(merge_all(paccs));
+    }
     let meta = Meta {
-        rule: "input lattices generated by oracles/precompiles.py: ecrecover over v x r x s boundary products, signatures made by the oracle, every truncation length; SHA-256 / RIPEMD-160 / identity for every length 0..=300 x 3 patterns; modexp over value products, declared-vs-supplied length mismatches and huge lengths (both pricings); BN254 add / mul over small and wrap-around multiples, malformed points, all truncations; BN254 and BLS12-381 pairings over scalar combinations whose products do / do not cancel; BLAKE2F over rounds x messages x counters x flags; KZG over constant polynomials (proof = infinity), every kind of corruption and byte flips; BLS12-381 G1/G2 add, MSM (k = 1, 2), encodings, subgroup checks, map-to-curve validation; each vector on every fork it applies to with gas limits cost-1, cost, cost+1, 30M, and through a real CALL with exactly the cost and one less; distinct = distinct (precompile, input, fork)".into(),
+        rule: "input lattices generated by oracles/precompiles.py: ecrecover over v x r x s boundary products, signatures made by the oracle, every truncation length; SHA-256 / RIPEMD-160 / identity for every length 0..=300 x 3 patterns; modexp over value products, declared-vs-supplied length mismatches and huge lengths (both pricings); BN254 add / mul over small and wrap-around multiples, malformed points, all truncations; BN254 and BLS12-381 pairings over scalar combinations whose products do / do not cancel; BLAKE2F over rounds x messages x counters x flags; KZG over constant polynomials (proof = infinity), every kind of corruption and byte flips; BLS12-381 G1/G2 add, MSM (k = 1, 2), encodings, subgroup checks, map-to-curve validation; each vector on every fork it applies to with gas limits cost-1, cost, cost+1, 30M, and through a real CALL with exactly the cost and one less; every ordered pair of vectors of one precompile that differ in exactly one 32-byte word also back to back on one thread; distinct = distinct (precompile, input, fork)".into(),
         assumptions: vec![
             "expected outputs come from Python integers / hashlib / affine arithmetic written from the EIPs and RFC 7693; curve constants are self-checked (on curve, order annihilates the generator; BLAKE2 F against hashlib)".into(),
             "pairing values are decided only through bilinearity (scalar products that cancel or do not); map-to-curve outputs are checked for gas, length and input validation only".into(),
@@ -284,11 +365,36 @@ fn c24_inputs(tier: Tier) -> Vec<(u64, String)> {
     }
     v.sort();
     v.dedup();
+    // two calls in a row on one thread ("a>b": the line reports b's result after a was evaluated): every
+    // ordered pair of inputs that differ in one 32-byte word only (same hash, r, s and another v; same
+    // commitment and proof and another z or y), and neighbours in sorted order
+    let singles = v.clone();
+    let mut pairs = vec![];
+    for (i, (a1, x)) in singles.iter().enumerate() {
+        for (j, (a2, y)) in singles.iter().enumerate() {
+            if i == j || a1 != a2 || x.len() != y.len() {
+                continue;
+            }
+            let near = j == i + 1 || i == j + 1;
+            let words_differing = x.as_bytes().chunks(64).zip(y.as_bytes().chunks(64)).filter(|(p, q)| p != q).count();
+            if words_differing == 1 || (near && tier == Tier::Thorough) {
+                pairs.push((*a1, format!("{x}>{y}")));
+            }
+        }
+    }
+    v.extend(pairs);
     v
 }
 fn c24_line(addr: u64, input: &str) -> String {
     let fork = if addr == 10 { PrecompileSpecId::CANCUN } else { PrecompileSpecId::BERLIN };
-    let r = call_precompile(fork, addr, &Bytes::from(hex::decode(input).unwrap()), 1_000_000);
+    let last = match input.split_once('>') {
+        Some((first, second)) => {
+            let _ = call_precompile(fork, addr, &Bytes::from(hex::decode(first).unwrap()), 1_000_000);
+            second
+        }
+        None => input,
+    };
+    let r = call_precompile(fork, addr, &Bytes::from(hex::decode(last).unwrap()), 1_000_000);
     let res = match r {
         Ok(Ok((g, b))) => format!("ok {g} {}", hex::encode(b)),
         Ok(Err(PrecompileErrors::Error(_))) => "error".to_string(),
@@ -347,7 +453,7 @@ pub fn run24(ctx: &Ctx) -> i32 {
         }
     }
     let meta = Meta {
-        rule: "all ecrecover and KZG point-evaluation inputs of the C23 lattices (v x r x s boundary products, oracle-made signatures with high-s and flipped-v twins, every truncation length; constant-polynomial proofs, corruptions, byte flips) plus every 1st/3rd single-bit flip of a valid ecrecover input, evaluated in the build with the C secp256k1 + c-kzg backends and in the build with k256 + kzg-rs; the result lines (ok + gas + output / error) must be identical; distinct = distinct (precompile, result class, lengths)".into(),
+        rule: "all ecrecover and KZG point-evaluation inputs of the C23 lattices (v x r x s boundary products, oracle-made signatures with high-s and flipped-v twins, every truncation length; constant-polynomial proofs, corruptions, byte flips) plus every 1st/3rd single-bit flip of a valid ecrecover input, and every ordered pair of those inputs that differ in exactly one 32-byte word evaluated back to back on one thread (the second result is compared), evaluated in the build with the C secp256k1 + c-kzg backends and in the build with k256 + kzg-rs; the result lines (ok + gas + output / error) must be identical; distinct = distinct (precompile, result class, lengths)".into(),
         assumptions: vec!["the `alt` harness build (revm features k256, kzg-rs, no secp256k1 / c-kzg) runs first and leaves its results in target/c24-alt.txt".into()],
         bounds: json!({"inputs": lines.len()}),
         min_distinct: 4,
